@@ -257,3 +257,133 @@ Section XKinds.
       + intros H1. destruct (HX5 Hc u H1) as [E _]. congruence.
   Qed.
 End XKinds.
+
+(* ================================================================== *)
+(* Layer 1b: the mutex of the pending list, the mutexes of the task runners, the client's handles *)
+(* ================================================================== *)
+Record LInv (g : glob) (ls : list loc) : Prop := {
+  L1 : forall u, holdsL (pcof ls u) = true -> lmtx g = Some u;
+  L2 : forall a, lmtx g = Some a -> holdsL (pcof ls a) = true
+}.
+Record TInv (g : glob) (ls : list loc) : Prop := {
+  T1 : forall u k, tmof (pcof ls u) = Some k -> tmtx g k = Some u;
+  T2 : forall k a, tmtx g k = Some a -> tmof (pcof ls a) = Some k
+}.
+(* thread-local facts about the handle table *)
+Definition hand_ok (l : loc) : Prop :=
+  (forall h, at_ l = H_rel h -> hlookup h (hand l) = Some true) /\
+  (rdh (at_ l) = true -> (1 <= nown (hand l))%nat).
+Definition HInv (ls : list loc) : Prop := forall u, hand_ok (locof ls u).
+
+Section LTKinds.
+  Variables (g g' : glob) (ls : list loc) (t : nat) (l l' : loc).
+  Hypothesis Hl : nth_error ls t = Some l.
+  Let Hp := pcof_at _ _ _ Hl.
+  Ltac xpt u := intros u; ptw Hl; destruct (Nat.eqb_spec u t) as [->|Hne].
+
+  Lemma LK_same : LInv g ls -> lmtx g' = lmtx g -> holdsL (at_ l') = holdsL (at_ l) -> LInv g' (upd ls t l').
+  Proof.
+    intros [H1 H2] Hm Hh. constructor; rewrite Hm.
+    - xpt u; [rewrite Hh, <- Hp|]; auto.
+    - xpt u; [rewrite Hh, <- Hp|]; auto.
+  Qed.
+  Lemma LK_acq : LInv g ls -> lmtx g = None -> lmtx g' = Some t -> holdsL (at_ l') = true -> LInv g' (upd ls t l').
+  Proof.
+    intros [H1 H2] Hf Hm Hh. constructor; rewrite Hm.
+    - xpt u; [reflexivity|]. intros Hu. specialize (H1 u Hu). congruence.
+    - xpt u; [auto|congruence].
+  Qed.
+  Lemma LK_rel : LInv g ls -> holdsL (at_ l) = true -> lmtx g' = None -> holdsL (at_ l') = false -> LInv g' (upd ls t l').
+  Proof.
+    intros [H1 H2] Hh Hm Hh'. pose proof (H1 t) as H1t. rewrite Hp in H1t. specialize (H1t Hh).
+    constructor; rewrite Hm.
+    - xpt u; [congruence|]. intros Hu. specialize (H1 u Hu). congruence.
+    - discriminate.
+  Qed.
+
+  Lemma TK_same : TInv g ls -> tmtx g' = tmtx g -> tmof (at_ l') = tmof (at_ l) -> TInv g' (upd ls t l').
+  Proof.
+    intros [H1 H2] Hm Hh. constructor; rewrite Hm.
+    - xpt u; [rewrite Hh, <- Hp|]; auto.
+    - intros k. xpt u; [rewrite Hh, <- Hp|]; auto.
+  Qed.
+  Lemma TK_acq k : TInv g ls -> tmtx g k = None -> tmtx g' = fupd (tmtx g) k (Some t) ->
+    tmof (at_ l) = None -> tmof (at_ l') = Some k -> TInv g' (upd ls t l').
+  Proof.
+    intros [H1 H2] Hf Hm Hh Hh'. constructor; rewrite Hm; unfold fupd.
+    - xpt u; intros k0 E.
+      + assert (k0 = k) by congruence. subst. rewrite Nat.eqb_refl. reflexivity.
+      + destruct (Nat.eqb_spec k0 k) as [->|Hk]; [|auto]. specialize (H1 u k E). congruence.
+    - intros k0. xpt u; destruct (Nat.eqb_spec k0 k) as [->|Hk]; intros E; auto; try congruence.
+      specialize (H2 _ _ E). rewrite Hp in H2. congruence.
+  Qed.
+  Lemma TK_rel k : TInv g ls -> tmof (at_ l) = Some k -> tmtx g' = fupd (tmtx g) k None ->
+    tmof (at_ l') = None -> TInv g' (upd ls t l').
+  Proof.
+    intros [H1 H2] Hh Hm Hh'. pose proof (H1 t k) as H1t. rewrite Hp in H1t. specialize (H1t Hh).
+    constructor; rewrite Hm; unfold fupd.
+    - xpt u; intros k0 E; [congruence|].
+      destruct (Nat.eqb_spec k0 k) as [->|Hk]; [|auto]. specialize (H1 u k E). congruence.
+    - intros k0. xpt u; destruct (Nat.eqb_spec k0 k) as [->|Hk]; intros E; auto; try discriminate.
+      specialize (H2 _ _ E). rewrite Hp in H2. congruence.
+  Qed.
+
+  Lemma HK_step : HInv ls -> hand_ok l' -> HInv (upd ls t l').
+  Proof. intros H Hn. xpt u; auto. Qed.
+End LTKinds.
+
+Record Inv1 (g : glob) (ls : list loc) : Prop := {
+  I1X : XInv g ls; I1L : LInv g ls; I1T : TInv g ls; I1H : HInv ls
+}.
+
+Ltac gsimp :=
+  unfold tick, ghost_of, shcap;
+  cbn [mk throws owner nsh flag lmtx queue pay rdrs dirty faulted calls ntasks tfid tasync tmtx tfut gh
+       set_owner set_nsh set_flag set_list set_pay set_calls set_tmtx set_tfut set_gh add_task at_ hand prog futs].
+Ltac nown_facts :=
+  repeat match goal with
+  | H : hlookup ?h ?l = Some true |- _ =>
+    lazymatch goal with
+    | _ : (nown (hremove h l) + 1 = nown l)%nat |- _ => fail
+    | _ => pose proof (nown_remove_true h l H)
+    end
+  | H : hlookup ?h ?l = Some false |- _ =>
+    lazymatch goal with
+    | _ : nown (hremove h l) = nown l |- _ => fail
+    | _ => pose proof (nown_remove_false h l H)
+    end
+  end.
+Ltac side :=
+  gsimp;
+  first [ reflexivity | assumption
+        | solve [unfold shl; cbn [hand at_ holdsS nown holdsX holdsL tmof bq_task cont after_drain body_done]; nown_facts; lia]
+        | solve [cbn [holdsX holdsL tmof bq_task cont after_drain body_done]; repeat match goal with |- context [match ?x with _ => _ end] => destruct x end; reflexivity]
+        | solve [fold (shcap _); assumption] ].
+
+Lemma Inv1_init m th progs : Inv1 (gl (init m th progs)) (thr (init m th progs)).
+Proof.
+  assert (P : forall u, locof (map (fun p => Loc p Idle [] []) progs) u = dloc \/
+                        exists p, locof (map (fun p => Loc p Idle [] []) progs) u = Loc p Idle [] []).
+  { intros u. unfold locof. rewrite nth_error_map. destruct (nth_error progs u); cbn; eauto. }
+  assert (Q : forall u, pcof (map (fun p => Loc p Idle [] []) progs) u = Idle /\
+                        hand (locof (map (fun p => Loc p Idle [] []) progs) u) = []).
+  { intros u. unfold pcof. destruct (P u) as [E|[p E]]; rewrite E; auto. }
+  unfold init; cbn [gl thr]. constructor.
+  - constructor; cbn; intros; try discriminate; try (rewrite (proj1 (Q _)) in *; discriminate).
+    + symmetry. apply sum_all_zero. intros u. unfold shl. destruct (Q u) as [E1 E2]. unfold pcof in E1. rewrite E1, E2. reflexivity.
+    + exfalso. unfold shl in *. destruct (Q u) as [E1 E2]. unfold pcof in E1. rewrite E1, E2 in *. cbn in *. lia.
+  - constructor; cbn; intros; try discriminate. rewrite (proj1 (Q _)) in *. discriminate.
+  - constructor; cbn; intros; try discriminate. rewrite (proj1 (Q _)) in *. discriminate.
+  - intros u. destruct (Q u) as [E1 E2]. unfold pcof in E1. split; intros; rewrite ?E1, ?E2 in *; discriminate.
+Qed.
+
+Lemma Inv1_step g ls t c l g' l' es :
+  Inv1 g ls -> nth_error ls t = Some l -> tstep t c g l = Some (g', l', es) -> Inv1 g' (upd ls t l').
+Proof.
+  intros [HX HL HT HH] Hl Hs. destruct l as [pr p hd fu].
+  pose proof (HH t) as [HH1 HH2]. rewrite (locof_at _ _ _ Hl) in HH1, HH2. cbn [at_ hand] in HH1, HH2.
+  step_cases Hs.
+  all: try (specialize (HH1 _ eq_refl)); try (specialize (HH2 eq_refl)).
+  all: constructor.
+  all: idtac.
+Abort.
